@@ -1,6 +1,9 @@
 import OV.Model.C10VersionConv
 import OV.Lemmas.C10
 import OV.Lemmas.C10Eval
+import OV.Lemmas.C10Fallback
+import OV.Lemmas.C10Names
+import OV.Lemmas.C10Imports
 /-!
 # C10 — opset version conversion yields a valid, equivalent model at the target version
 
@@ -378,6 +381,113 @@ theorem initializers_kept {α} [Inner α] (m : Model α) (t : Nat) (ns : List (N
     by_cases hx : x ∈ m.inputs
     · exact Or.inl hx
     · exact Or.inr ⟨h, by simpa using hx⟩
+
+/-! ### The fallback route in detail (`call_onnx_api`, recovery loop) -/
+
+open OV.C10.Fallback in
+/-- **`initializers_kept`, fallback route, values included.**  For every graph (any inputs, any initializers of
+any sizes — below or above the 1000-element limit of `call_onnx_api`, listed among the graph inputs or not) whose
+initializer names are distinct, and every C-API result that returns inputs and initializers as given: after the
+recovery loop and the truncation the initializer dict holds exactly the original (name, size, value) entries —
+none lost, none added, every stripped value restored — and the graph inputs are the original ones, in order. -/
+theorem fallback_initializers_kept (orig conv : Fallback.G) (hinj : NameInj orig.inits)
+    (hc : CapiKeeps (prepare orig) conv) :
+    (∀ i, i ∈ (afterSuccess orig conv).inits ↔ i ∈ orig.inits) ∧ (afterSuccess orig conv).inputs = orig.inputs := by
+  obtain ⟨hci, hcn⟩ := hc
+  have hsub : Sub conv.inits orig.inits := by
+    intro x hx; rw [hcn] at hx; exact (List.mem_filter.mp hx).1
+  obtain ⟨a, _, c⟩ := regNames_spec orig.inits hinj conv.inputs conv.inits hsub
+  refine ⟨fun i => ⟨fun h => a i h, fun h => c i h ?_⟩, ?_⟩
+  · rw [hci]; exact name_in_prepared_inputs orig h
+  · simp [afterSuccess, hci, prepare]
+
+open OV.C10.Fallback in
+/-- **Failure of the C API leaves the model as it was**: `finally` re-registers every original initializer with its
+value (the stripped ones re-enter the dict at its end — a dict has no meaningful order) and cuts the inputs back. -/
+theorem fallback_failure_restores (orig : Fallback.G) (hinj : NameInj orig.inits) :
+    (∀ i, i ∈ (afterCall orig).inits ↔ i ∈ orig.inits) ∧ (afterCall orig).inputs = orig.inputs := by
+  have hsub : Sub (during orig).inits orig.inits := fun x hx => (List.mem_filter.mp hx).1
+  obtain ⟨a, b, _⟩ := registerAll_spec orig.inits hinj orig.inits (during orig).inits hsub (fun x hx => hx)
+  exact ⟨fun i => ⟨fun h => a i h, fun h => b i h⟩, by simp [afterCall, restore, during, prepare]⟩
+
+/-- graph inputs `x, w`; initializer `w` with 1200 elements (an overridable default above the stripping limit) -/
+def fallbackWitness : Fallback.G := { inputs := ["x", "w"], inits := [{ name := "w", size := 1200, val := 7 }] }
+
+/-- (non-vacuity) the witness graph has distinct initializer names -/
+example : Fallback.NameInj fallbackWitness.inits := by
+  intro i j hi hj _
+  simp [fallbackWitness] at hi hj; rw [hi, hj]
+
+open OV.C10.Fallback in
+/-- Why the recovery loop must scan *all* inputs of the converted graph: scanning only the inputs that
+`call_onnx_api` appended (seeded change C10-5) loses a big initializer that is itself a graph input. -/
+theorem fallback_appended_only_refuted :
+    CapiKeeps (prepare fallbackWitness) (prepare fallbackWitness) ∧
+    recoverLoopAppendedOnly fallbackWitness (prepare fallbackWitness) = [] ∧
+    recoverLoop fallbackWitness.inits (prepare fallbackWitness) = fallbackWitness.inits :=
+  ⟨⟨rfl, rfl⟩, by decide, by decide⟩
+
+/-! ### Names of adapter-created values (`_collect_value_names`, `_name_new_values`) -/
+
+open OV.C10.Names in
+/-- The naming loop always terminates: among `|used| + 1` consecutive counters one is unused — and it returns the
+*first* unused counter at or above the current one. -/
+theorem fresh_name_exists (used : List VName) (c : Nat) :
+    ∃ k, firstFresh used (used.length + 1) c = some k ∧ c ≤ k ∧ VName.val k ∉ used ∧
+      ∀ j, c ≤ j → j < k → VName.val j ∈ used := by
+  obtain ⟨k, hk⟩ := firstFresh_total used c
+  exact ⟨k, hk, firstFresh_spec used _ c k hk⟩
+
+open OV.C10.Names in
+/-- **Every adapter-created name is defined once, over all scopes.**  For every set `used` of collected names, every
+counter and every sequence of replacements (any sizes, any number, wherever in the graph or its subgraphs they
+happen): naming succeeds, the visible new names `val_k` are strictly increasing in creation order (so pairwise
+distinct across all replacements, whatever scopes they land in) and none of them is in `used`.  With `used` ⊇ the
+names the source model defines in any scope — what `_collect_value_names` computes — a source in which every name
+is defined once is converted into a model in which every name is defined once. -/
+theorem adapter_names_defined_once (sizes : List Nat) (st : St) :
+    ∃ vis, nameAll sizes st = some vis ∧ vis.length = sizes.length ∧
+      List.Pairwise (· < ·) vis.flatten ∧ ∀ k ∈ vis.flatten, st.ctr ≤ k ∧ VName.val k ∉ st.used :=
+  nameAll_spec sizes st
+
+open OV.C10.Names in
+/-- The witness of seeded change C10-6 in the model: with the body outputs `val_0`, `val_1` collected the DFT
+rewrite (2 new nodes) gets `val_2`; had they not been collected it would get `val_0` again. -/
+example : nameAll [2] { used := [.val 0, .val 1, .other "x"], ctr := 0 } = some [[2]] ∧
+    nameAll [2] { used := [.other "x"], ctr := 0 } = some [[0]] := by decide
+
+/-! ### Opset imports on the ModelProto entry -/
+
+open OV.C10.Imports in
+/-- **Every used domain is declared after the conversion (ModelProto entry).**  For every model whose main graph and
+whose called functions import the domains they use (any number of functions, any private domains), every target
+and whatever the proto listed before: after inlining, clean-up, the default-domain bump and the rebuild of
+`opset_import` from the converted IR model, the proto imports every domain some node of the (inlined) main graph
+uses, and imports the default domain at the target. -/
+theorem proto_imports_cover (m : M) (hv : Valid m) (target : Nat) (proto : Dict) :
+    (∀ d ∈ usedAfter m, (protoRebuild proto (converted m target)).has d = true) ∧
+    (protoRebuild proto (converted m target)).get "" = some target := by
+  refine ⟨fun d hd => ?_, get_set _ _ _⟩
+  unfold protoRebuild converted
+  refine set_keeps (removeUnused_keeps ?_ hd)
+  rcases List.mem_append.mp hd with h | h
+  · exact foldl_addMissing_mono _ _ (hv.main d h)
+  · obtain ⟨u, hu, hdu⟩ := List.mem_flatten.mp h
+    obtain ⟨f, hf, rfl⟩ := List.mem_map.mp hu
+    exact foldl_addMissing_adds _ _ f.1 (List.mem_map_of_mem hf) (hv.funcs f hf d hdu)
+
+/-- main graph: `Relu`, call of a function that imports and uses the private domain `priv` -/
+def importsWitness : Imports.M :=
+  { imports := [("", 18), ("fn", 1)], usedMain := [""], funcs := [([("", 18), ("priv", 1)], ["", "priv"])] }
+
+open OV.C10.Imports in
+/-- Updating the proto's existing entries in place instead (seeded change C10-4) leaves a domain that only enters
+the main graph through inlining undeclared; the rebuild declares it. -/
+theorem proto_in_place_refuted :
+    Valid importsWitness ∧
+    (protoInPlace importsWitness.imports (converted importsWitness 21)).has "priv" = false ∧
+    (protoRebuild importsWitness.imports (converted importsWitness 21)) = [("", 21), ("priv", 1)] := by
+  refine ⟨⟨by decide, by decide⟩, by decide, by decide⟩
 
 /-- **`functions_kept_or_inlined`.**  The pass inlines first: whenever the inline pass succeeds no
 function is left (their behaviour is preserved by the `InlinePass` contract, A-ir), and the default-domain
